@@ -125,6 +125,14 @@ Shapes == <<
   TdDoc(NObj(<<DomT, <<"P", NArr(<<Member("f", "P[]")>>)>> >>), NStr("P"), Dom, NObj(<< <<"f", Nest(120, NArr(<<>>))>> >>)),
   TdDoc(NObj(<<DomT, <<"A", NArr(<<Member("b", "B")>>)>>, <<"B", NArr(<<Member("a", "A[]")>>)>> >>), NStr("A"), Dom,
         NObj(<< <<"b", NObj(<< <<"a", NArr(<<>>)>> >>)>> >>)),
+  \* reference cycles that do NOT pass through the primary type, with repeated references
+  TdDoc(NObj(<<DomT, <<"P", NArr(<<Member("q", "Q")>>)>>, <<"Q", NArr(<<Member("qs", "Q[]")>>)>> >>), NStr("P"), Dom,
+        NObj(<< <<"q", NObj(<< <<"qs", NArr(<<>>)>> >>)>> >>)),
+  TdDoc(NObj(<<DomT, <<"P", NArr(<<Member("a", "A[]")>>)>>, <<"A", NArr(<<Member("b", "B[]")>>)>>, <<"B", NArr(<<Member("a", "A[]"), Member("c", "C[]")>>)>>,
+               <<"C", NArr(<<Member("b", "B[]"), Member("b2", "B[]"), Member("c", "C[]")>>)>> >>), NStr("P"), Dom, NObj(<< <<"a", NArr(<<>>)>> >>)),
+  TdDoc(NObj(<<DomT, <<"P", NArr(<<Member("x", "Q[]"), Member("y", "Q[]")>>)>>, <<"Q", NArr(<<Member("x", "Q[]"), Member("y", "Q[]"), Member("p", "P[]")>>)>> >>),
+        NStr("P"), Dom, NObj(<< <<"x", NArr(<<>>)>>, <<"y", NArr(<<>>)>> >>)),
+  TdDoc(NObj(<<DomT, <<"P", NArr(<<Member("f", "Ghost[]")>>)>>, <<"Q", NArr(<<Member("g", "Q")>>)>> >>), NStr("P"), Dom, NObj(<< <<"f", NArr(<<>>)>> >>)),
   TdDoc(NObj(<<DomT, <<"P", NArr([i \in 1..300 |-> Member("f" \o ToString(i), "uint8")])>> >>), NStr("P"), Dom, NObj(<<>>)),
   TdDoc(NObj(<<DomT>>), NStr("P"), NNull, NObj(<<>>)), TdDoc(NObj(<<DomT>>), NStr("P"), Dom, NNull),
   NNull, NArr(<<>>), NObj(<<>>), NStr("x"), NNum("1"), Nest(127, NNull), NestObj(127, NNull) >>
